@@ -31,7 +31,14 @@ from .value import (
 def is_universally_assignable(value: Value, target_value: Value) -> bool:
     if value is NO_RETURN_VALUE or isinstance(value, AnyValue):
         return True
-    elif value == TypedValue(type) and isinstance(target_value, SubclassValue):
+    elif value == TypedValue(type) and (
+        isinstance(target_value, SubclassValue)
+        or (
+            isinstance(target_value, MultiValuedValue)
+            and target_value.vals
+            and all(isinstance(val, SubclassValue) for val in target_value.vals)
+        )
+    ):
         return True
     elif isinstance(value, AnnotatedValue):
         return is_universally_assignable(value.value, target_value)
